@@ -30,6 +30,24 @@ M = {
  "C31": ("exit_guard skips restore_checkpoint when the vector lengths are unchanged (ignoring the ghost counters)",
          "a guard body yielding a small atom from a zero-argument operator, or ENABLE_GC + a GC-candidate body",
          ["C31", "C08"], "C31: 1 violation, C08: 1 violation (first run)"),
+ "C02b": ("tree_hash_costed checks the budget after pushing and adds ops.len() * cost_per_byte as a lower bound for pending work, counting the cost-free Cons markers",
+          "sha256tree over a deep list / left-nested tree of (almost) empty atoms, budget in the window [C, C + depth*cost_per_byte - 320)",
+          ["C02"], "missed at first (no deep all-nil trees at tight budgets; C10 and C23 use unlimited budgets); after adding gen_prog.long_work_programs to the budget sweep: 36 violations"),
+ "C07b": ("op_multiply under LIMITS re-measures a first operand longer than 256 bytes by its magnitude and rejects only if that still exceeds 256",
+          "LIMITS without NEW_COST_MODEL, `*` whose first operand is zero-/sign-padded to more than 256 bytes: Ok under F u {LIMITS} with a cost different from F",
+          ["C07"], "missed at first (size-boundary operands were never padded, and the deciding flag pair was met by chance); after padded operands + directed (F, F u {bit}) pairs under both cost models: 14 violations"),
+ "C13b": ("maybe_restore_with_node calls the checked new_atom before releasing the ghost counters",
+          "ENABLE_GC roll-back whose survivor is a fresh 1-48 byte heap atom, allocator within that size of the heap limit or at the atom cap",
+          ["C13", "C04", "C12"], "missed at first by all three; after the gccap history profile (roll-back within the survivor's size of a cap): C13 132 violations. The new histories exposed a latent false alarm of the panic monitor (reference no longer aligned after an F2 step), fixed"),
+ "C17b": ("find_paths decides whether a back-reference pays off with a one-byte size prefix for the path atom",
+          "a repeated atom/sub-tree of classic length S >= 66 whose earlier copy is 8*(S-2)-8 .. 8*(S-2)-1 steps away",
+          ["C17"], "missed at first (no tree had copies ~500 steps apart); after far_trees: 16 violations"),
+ "C25b": ("new_concat grows the most recent heap atom in place; the ENABLE_GC roll-back then meets an atom straddling its checkpoint and reports InternalError",
+          "ENABLE_GC + concat onto the latest heap allocation that predates an enclosing apply's checkpoint + >= 1 KiB reclaimable",
+          ["C25", "C04"], "C04: 30 violations (first run); C25: missed at first, caught after sharing C04's directed GC programs with C25"),
+ "C26b": ("run_serialized_chia_program drops NEW_COST_MODEL when LIMITS is set (the core resolves the conflict the other way)",
+          "a flag word with both LIMITS and NEW_COST_MODEL",
+          ["C26"], "18 violations (first run)"),
  "C32": ("g1_negate/g2_negate validate only in the non-infinity branch",
          "a 48/96-byte atom with top bits 110 and another bit set (malformed infinity)",
          ["C32"], "18 violations (first run)"),
@@ -40,7 +58,7 @@ for i, (chg, need, checks, res) in M.items():
         print("no confirm.log for", i); continue
     log = open(d + "/confirm.log").read()
     keys = [l for l in log.splitlines() if "_rc=" in l or l.startswith("suite passed")]
-    json.dump({"seed": i, "breaks_property": i, "change": chg, "needs_to_manifest": need, "written_by": W,
+    json.dump({"seed": i, "breaks_property": i[:3], "change": chg, "needs_to_manifest": need, "written_by": W,
                "confirmed": "confirmed by me in a scratch worktree of /repo HEAD (tools/confirm_seed*.sh): " + ", ".join(keys),
                "checks_run": ["VERIF_REPO=<scratch worktree with the patch> ./check %s --tier quick (tools/try_seed.sh)" % c for c in checks],
                "result": res}, open(d + "/meta.json", "w"), indent=1)
